@@ -13,4 +13,5 @@ define(globals(), "js_tables", "tool", F, "verif_js_tables", "js_tables.rs",
        ["meaning of the tag strings read from runtime.mjs (DiplomatBuf.slice element size / typed array tables), typed arrays per ECMAScript", "RandomState::new stubbed; TypeContext::__verif_empty hook"],
        {"C08": ["runtime.mjs itself (JS)"], "C15": []},
        kani_args=["-Z", "stubbing"],
-       extra_appends=[("core/src/hir/type_context.rs", "core_hooks.rs"), ("tool/src/lib.rs", "tool_common.rs")])
+       extra_appends=[("core/src/hir/type_context.rs", "core_hooks.rs"), ("tool/src/lib.rs", "tool_common.rs")],
+       quick_elsewhere={"C15": "C08"})
